@@ -285,9 +285,14 @@ func (e persistEngine) Run(raw json.RawMessage) (interface{}, error) {
 	}
 	out := &bytes.Buffer{}
 	opts := []pgs.InitOption{pgs.ProtocInput(bytes.NewReader(trivialRequest(""))), pgs.ProtocOutput(out), pgs.FileSystem(fs)}
+	// the option given last decides: an earlier, different value first - and when no features are
+	// wanted, an earlier value taken back with nil
 	if in.Features != nil {
-		f := *in.Features
-		opts = append(opts, pgs.SupportedFeatures(&f))
+		f, other := *in.Features, *in.Features+1
+		opts = append(opts, pgs.SupportedFeatures(&other), pgs.SupportedFeatures(&f))
+	} else {
+		one := uint64(1)
+		opts = append(opts, pgs.SupportedFeatures(&one), pgs.SupportedFeatures(nil))
 	}
 	g := pgs.Init(opts...)
 	for _, p := range in.Procs {
@@ -526,6 +531,13 @@ func (e persistEngine) genC11p(g *Gen, emit func(persistIn)) {
 				emit(persistIn{Arts: []artJ{f, a, in1, in2, mkArt("custom", "c/"+s, "C")}, Procs: []procJ{all, konst, drop}})
 			}
 		}
+		// an OVERWRITING file under this name after an append (a nameless chunk) and after a file: a
+		// rejected name stays rejected whatever the response already holds
+		if i%4 == 0 || len(s) <= 4 {
+			fo := mkArt("file", s, "O")
+			fo.Ow = true
+			emit(persistIn{Arts: []artJ{mkArt("file", "ok.go", "F"), mkArt("app", "ok.go", "+"), fo}})
+		}
 		// the name on something that is not one of the six kinds (a pointer to one, a foreign type
 		// embedding one): never emitted, whatever the name
 		if i%8 == 0 {
@@ -557,6 +569,12 @@ func (e persistEngine) genC10(g *Gen, emit func(persistIn)) {
 	if g.Thorough() {
 		maxLen = 5
 	}
+	// nothing to persist at all: the response is still made, and still carries the supported features
+	for _, f := range []uint64{0, 1, 3} {
+		ff := f
+		emit(persistIn{Arts: []artJ{}, Features: &ff})
+	}
+	emit(persistIn{Arts: []artJ{}})
 	var rec func(seq []artJ, n int)
 	rec = func(seq []artJ, n int) {
 		if len(seq) > 0 {
